@@ -335,8 +335,16 @@ class Exec(ExecExpr):
                 cond = SP.SpecEval(old, env, modname, extra=lets).bool(when)
                 if z3.is_false(cond) or not ids:
                     continue
-                alts.append(And(Or(*[cid == i for i in ids]), cond))
-                concrete |= set(ids)
+                if exname in ('Exception', 'BaseException'):
+                    # "any exception": the class is NOT enumerated from the registry (a handler may name a class that is
+                    # registered only later, e.g. a library's ParseError): any class id satisfies the clause
+                    special = [front.cls_id('builtins:' + n) for n in ('KeyboardInterrupt', 'SystemExit', 'GeneratorExit')]
+                    not_special = TRUE if exname == 'BaseException' else Not(Or(*[cid == i for i in special]))
+                    alts.append(And(cid >= 0, not_special, cond))
+                    concrete |= set(ids) | {-1, -2}
+                else:
+                    alts.append(And(Or(*[cid == i for i in ids]), cond))
+                    concrete |= set(ids)
             e.assume(Or(*alts) if alts else FALSE)
             if alts and self.feasible(e):
                 self.havoc(e, c, env, old, lets, modname)
